@@ -1425,9 +1425,13 @@ StoreEntry::timestampsSet()
     }
 
     time_t exp = 0;
-    if (reply->expires > 0 && reply->date > -1)
+    if (reply->expires > 0 && reply->date > -1) {
         exp = served_date + (reply->expires - reply->date);
-    else
+        // an explicit expiration time in the distant past must not turn into
+        // a negative value: refreshStaleness() reads those as "no expiry info"
+        if (exp < 0)
+            exp = 0;
+    } else
         exp = reply->expires;
 
     if (timestamp == served_date && expires == exp) {
